@@ -114,13 +114,14 @@ func (e *Engine) Handle(conn transport.Conn) bool {
 //
 // Note: All passed servers to Accept must be closed before calling this method.
 func (e *Engine) Close() {
-	// acquire mutex
+	// stop acceptors, connections handled from now on are closed immediately
 	e.mutex.Lock()
-	defer e.mutex.Unlock()
-
-	// stop acceptors (if none has ever been started there is nothing to wait
-	// for, waiting would then block forever)
 	e.tomb.Kill(nil)
+	e.mutex.Unlock()
+
+	// wait for the acceptors without holding the mutex, an acceptor that just
+	// got a connection needs it in Handle (if no acceptor has ever been
+	// started there is nothing to wait for, waiting would then block forever)
 	if atomic.LoadUint32(&e.accepting) == 1 {
 		_ = e.tomb.Wait()
 	}
